@@ -20,7 +20,7 @@ func c14Mut(r *rng, id string) {
 	}
 	k4 := mkKey(r, 16)
 	src := []string{"genuine1", "genuine1", "genuine2", "foreign", "removed", "otherlabel", "plain", "skipown", "skipunlabelled",
-		"removedmid", "keptlast", "stallremove"}[r.intn(12)]
+		"removedmid", "keptlast", "stallremove", "skipforeign"}[r.intn(13)]
 	skip := strings.HasPrefix(src, "skip")
 	if skip && label == "" {
 		label = "blue"
@@ -51,6 +51,8 @@ func c14Mut(r *rng, id string) {
 		sc.compress = r.chance(1, 2) // a peer without a key writes compressed frames by default
 	case "skipunlabelled":
 		sc.label = "" // same key, sealed with an empty label as associated data
+	case "skipforeign":
+		sc.label = label + "x" // another pool's traffic, its own label header still in front (same key)
 	}
 	snd, err := newCnode(sc)
 	if err != nil {
@@ -102,6 +104,9 @@ func c14Mut(r *rng, id string) {
 	hdr := len2(label)
 	if skip {
 		hdr = 0
+	}
+	if src == "skipforeign" {
+		hdr = len2(sc.label) // the foreign header is still in front of the sealed part
 	}
 	verOff := hdr // packet: version byte right behind the label header
 	if path == "str" {
